@@ -61,8 +61,8 @@ ASSUMPTIONS = [
     'judged by the harness ledger (model + which owner dirs exist) and a '
     'link must name, by its physical location, the owner file of its owner',
     'collection passes and container start / finish are separate processes '
-    'on a node; a pass is preempted at most once (gcrace; C14_RACE2=1 draws '
-    'a second preemption), only between two file-system calls it makes, '
+    'on a node; a pass is preempted at most twice (gcrace; C14_RACE2=0 allows '
+    'one only), only between two file-system calls it makes, '
     'and the other process then runs a whole burst of manager calls (each '
     'manager call is one symlink/readlink+unlink, not interleaved further)',
     'per-case directories live on /dev/shm when writable (else the default '
@@ -135,12 +135,13 @@ SIZES = {
 ERRNO = st.sampled_from(['EACCES', 'EIO', 'ESTALE'])
 
 
-# One preemption per collection pass by default.  C14_RACE2=1 also draws a
-# second burst a few calls after the first one: on the unchanged tree that
-# reaches the stat-then-unlink window of all three garbage collectors (an
-# entry released after the listing and granted to another live owner between
-# the pass's stat() and its unlink() is reclaimed), see notes/C14-notes.md.
-RACE2 = bool(os.environ.get('C14_RACE2'))
+# Up to two preemptions per collection pass: the second burst comes a few
+# calls after the first one.  That reaches the stat-then-unlink window of the
+# three garbage collectors (an entry released after the listing and granted
+# to another live owner between the pass's stat() and its unlink() used to be
+# reclaimed: repo fix recorded in known_findings.json, notes/C14-notes.md).
+# C14_RACE2=0 goes back to one preemption per pass.
+RACE2 = os.environ.get('C14_RACE2', '1') != '0'
 
 
 def _race(mgr, point, burst, **fields):
